@@ -115,6 +115,7 @@ StepVerdict(r, s) ==
             V("C15", "the slot of a connection that ended by '" \o s.ending \o "' was not released: a waiting client is never served")
       [] s.step = "over-limit" /\ s.served ->
             V("C15", "after a connection ended by '" \o s.ending \o "' more than max_connections are served")
+      [] s.step = "accept-failures-consumed" /\ s.left # 0 -> V("drift", "the injected accept failures were not consumed by the listener")
       [] s.step = "refill" /\ ~s.served -> V("C15", "after all connections ended the full number can no longer be served")
       [] s.step = "over-limit-final" /\ s.served -> V("C15", "the limit no longer holds after connections came and went")
       [] OTHER -> OK
